@@ -121,7 +121,12 @@ impl<'a> Read for ScriptReader<'a> {
             return Ok(0);
         }
         if Script::take_intr(&mut self.sc.intr, self.pos) {
-            return Err(Error::from(ErrorKind::Interrupted));
+            // both ways of building a transient error: the bare kind and a kind with a message
+            return Err(if self.pos % 2 == 0 {
+                Error::from(ErrorKind::Interrupted)
+            } else {
+                Error::new(ErrorKind::Interrupted, "interrupted, please retry")
+            });
         }
         if let Stop::Fail(o, k, id) = self.sc.stop {
             if o == self.pos {
@@ -148,7 +153,11 @@ impl Write for ScriptWriter {
         }
         let o = self.delivered.len();
         if Script::take_intr(&mut self.sc.intr, o) {
-            return Err(Error::from(ErrorKind::Interrupted));
+            return Err(if o % 2 == 0 {
+                Error::from(ErrorKind::Interrupted)
+            } else {
+                Error::new(ErrorKind::Interrupted, "interrupted, please retry")
+            });
         }
         match self.sc.stop {
             Stop::Fail(so, k, id) if so == o => return Err(Error::new(kind_of(k), format!("user:{}", id))),
